@@ -50,7 +50,7 @@ type decWorld struct{}
 func (decWorld) Name() string { return "W-DEC" }
 
 var decFaultKinds = []string{"net.bitflip", "net.bytesub", "net.multi", "net.truncate", "net.extend", "net.leninflate", "net.concat",
-	"byz.tree", "byz.tree", "json.member", "json.member", "net.nest", "net.pad", "net.hdr", "net.splice", "byz.members", "byz.profile"}
+	"byz.tree", "byz.tree", "json.member", "json.member", "net.nest", "net.pad", "net.hdr", "net.splice", "byz.members", "byz.profile", "byz.elements"}
 
 var decMsgKinds = []string{"cose", "cose", "cbor", "cbor", "json", "json", "swcbor", "swjson", "shapecbor", "shapejson"}
 
@@ -175,7 +175,9 @@ func (decWorld) Gen(prop, tier string, idx int, r *Rng) *Trace {
 				case "byz.members":
 					fo = Op{K: "fault", F: k, A: []int{30, 300, 3000, 12000}[r.Intn(4)]}
 				case "byz.profile":
-					fo = Op{K: "fault", F: k, A: r.Intn(12)}
+					fo = Op{K: "fault", F: k, A: r.Intn(14)}
+				case "byz.elements":
+					fo = Op{K: "fault", F: k, A: r.Intn(8), B: []int{20, 500, 3000, 20000, 60000}[r.Intn(5)], C: r.Intn(4)}
 				default:
 					fo = genNetFault(r, []string{k}, nMsg)
 				}
@@ -400,6 +402,12 @@ func applyDecFault(s *decSlot, op Op, donor []byte, cfg *DecCfg) bool {
 		}
 	case "byz.profile":
 		nb, fired = applyProfileFault(target, op.A, isJSONKind(s.kind))
+	case "byz.elements":
+		n := op.B
+		if n > 60000 {
+			n = 60000
+		}
+		nb, fired = applyArrayFlood(target, op.A, n, op.C, isJSONKind(s.kind))
 	case "byz.members":
 		n := op.A
 		if n > 13000 {
@@ -926,7 +934,9 @@ func (decWorld) Exec(prop string, t *Trace) *Result {
 			n := 0
 			for ni := 1; ni < len(nodes); ni++ {
 				saved := *nodes[ni]
-				for _, lit := range []string{"null", "[]", "{}", `""`, "0", "true", "[null]", "1e-400"} {
+				deep := strings.Repeat("[", 6000) + "0" + strings.Repeat("]", 6000)
+				manyNulls := "[" + strings.TrimSuffix(strings.Repeat("null,", 4000), ",") + "]"
+				for _, lit := range []string{"null", "[]", "{}", `""`, "0", "true", "[null]", "1e-400", deep, manyNulls} {
 					*nodes[ni] = jnode{kind: 'v', raw: lit}
 					var sb bytes.Buffer
 					root.write(&sb)
@@ -1088,6 +1098,15 @@ func (decWorld) Simplify(o Op) []Op {
 		c := o
 		c.D = 0
 		out = append(out, c)
+	}
+	if o.K == "fault" && o.F == "byz.elements" && o.B > 20 {
+		for _, b := range []int{20, 500, 3000} {
+			if b < o.B {
+				c := o
+				c.B = b
+				out = append(out, c)
+			}
+		}
 	}
 	if o.K == "fault" && (o.F == "net.nest" || o.F == "net.pad" || o.F == "byz.members") && o.A > 10 {
 		for _, a := range []int{10, 100, 1000, 10000} {
